@@ -84,6 +84,29 @@ def r1_plumbing(run):
             run.check(isinstance(ctx, ast.Constant) and ctx.value == "sp", "R1",
                       base.qual + "::getattr.context", "read in the sp context",
                       "option read in context %s" % unparse(ctx), base.loc(a.ast))
+    # the defaults table is used as written: nothing changes an entry between
+    # its definition and the loop (a default that depends on another option
+    # makes one option override another)
+    dtab = unparse(loops[0].iter.func.value) if isinstance(
+        loops[0].iter, ast.Call) else "attribute_defaults"
+    muts = []
+    for n2 in walk_no_nested(base.node):
+        if isinstance(n2, (ast.Assign, ast.AugAssign, ast.Delete)):
+            tg = n2.targets if not isinstance(n2, ast.AugAssign) else [n2.target]
+            for t in tg:
+                if isinstance(t, ast.Subscript) and unparse(t.value) == dtab:
+                    muts.append(n2)
+        if isinstance(n2, ast.Call) and isinstance(n2.func, ast.Attribute) and \
+                unparse(n2.func.value) == dtab and \
+                n2.func.attr in ("update", "pop", "setdefault", "clear",
+                                 "popitem", "__setitem__"):
+            muts.append(n2)
+    run.check(not muts, "R1", base.qual + "::defaults-unchanged",
+              "the documented defaults are applied as written",
+              "the defaults table is modified before it is applied (%s): the "
+              "default of one option now depends on something else" %
+              [norm_text(x)[:60] for x in muts], base.loc(muts[0]) if muts
+              else base.loc())
     # config.SP_ARGS
     cm = m.module("config")
     sp_args = set()
